@@ -7,7 +7,7 @@ P = dict(
         dict(module="MC_C06e", quick_cfg="MC_C06e_control_ell.cfg", expect_violation=True, coverage=False, workers=8),
         dict(module="MC_C06e", quick_cfg="MC_C06e_control_rr.cfg", expect_violation=True, coverage=False, workers=8)],
     proofs=["Proof_C06"],
-    required_events=["styled"],
+    required_events=["styled"], drift_checked=True,
     level_text="MC_C06 steps the transcribed call decompositions of styled rectangles (five rectangles) and circles (styled "
                "scanlines) call by call and compares the resulting map with the painting rule over the transcribed areas (one "
                "negative control); MC_C06e does the same for styled ellipses and rounded rectangles (EGStyledCurve: styled scanlines, one row per step, along the draw() route and the pixels() route, which select their branch differently; two negative controls); for every closed shape x style of an exhaustive small domain (sizes <= 10x10, stroke widths 0..7 so that the "
